@@ -40,17 +40,45 @@ fn end(what: &str, id0: u32, expect_live: &[u32], leaked_blocks: usize) -> R {
     for id in id0..tk::next_id() {
         let st = tk::state(id);
         if expect_live.contains(&id) {
-            ensure!(st == tk::LIVE_S, "C15", "uninit", "{}: element id={} written into a never-assumed slot was destroyed (state {})", what, id, st);
+            ensure!(
+                st == tk::LIVE_S,
+                "C15",
+                "uninit",
+                "{}: element id={} written into a never-assumed slot was destroyed (state {})",
+                what,
+                id,
+                st
+            );
         } else {
-            ensure!(st == tk::DEAD, "C15", "uninit", "{}: value id={} was not destroyed exactly once (state {})", what, id, st);
+            ensure!(
+                st == tk::DEAD,
+                "C15",
+                "uninit",
+                "{}: value id={} was not destroyed exactly once (state {})",
+                what,
+                id,
+                st
+            );
         }
     }
     if shadow::active() {
         if let Some(x) = shadow::take_findings().first() {
-            return viol("C15,C05", "uninit", format!("{}: allocator monitor: {:?}", what, x));
+            return viol(
+                "C15,C05",
+                "uninit",
+                format!("{}: allocator monitor: {:?}", what, x),
+            );
         }
         let n = shadow::live_count();
-        ensure!(n == leaked_blocks, "C15", "uninit", "{}: {} blocks alive at the end, expected {}", what, n, leaked_blocks);
+        ensure!(
+            n == leaked_blocks,
+            "C15",
+            "uninit",
+            "{}: {} blocks alive at the end, expected {}",
+            what,
+            n,
+            leaked_blocks
+        );
     }
     tk::reset_range(id0);
     Ok(())
@@ -60,10 +88,21 @@ pub const SLICE_PATHS: usize = 7;
 
 /// len elements, `mask` bit k set = slot k is written before the handle is dropped / assumed.
 pub fn slice_case<H: Pay, E: Pay>(len: usize, mask: u64, path: usize, st: &mut UStats) -> R {
-    let what = format!("H={} E={} len={} written={:#b} path=U{}", H::NAME, E::NAME, len, mask, path);
+    let what = format!(
+        "H={} E={} len={} written={:#b} path=U{}",
+        H::NAME,
+        E::NAME,
+        len,
+        mask,
+        path
+    );
     let id0 = begin();
     let z0 = tk::z_live();
-    let all: u64 = if len >= 64 { u64::MAX } else { (1u64 << len) - 1 };
+    let all: u64 = if len >= 64 {
+        u64::MAX
+    } else {
+        (1u64 << len) - 1
+    };
     let has_heap = E::NAME == "TB";
     let mut written: Vec<u32> = Vec::new();
     let mut header_id = 0u32;
@@ -80,28 +119,62 @@ pub fn slice_case<H: Pay, E: Pay>(len: usize, mask: u64, path: usize, st: &mut U
         // ---- dropped before assume_init
         0 => {
             let mut a: Arc<[MaybeUninit<E>]> = shadow::tracked(|| Arc::new_uninit_slice(len));
-            ensure!(a.len() == len && Arc::count(&a) == 1, "C15", "uninit", "{}: new_uninit_slice gave len {} count {}", what, a.len(), Arc::count(&a));
-            shadow::tracked(|| wr(Arc::get_mut(&mut a).expect("fresh uninit slice is unique"), mask, &mut written));
+            ensure!(
+                a.len() == len && Arc::count(&a) == 1,
+                "C15",
+                "uninit",
+                "{}: new_uninit_slice gave len {} count {}",
+                what,
+                a.len(),
+                Arc::count(&a)
+            );
+            shadow::tracked(|| {
+                wr(
+                    Arc::get_mut(&mut a).expect("fresh uninit slice is unique"),
+                    mask,
+                    &mut written,
+                )
+            });
             let heap = a.heap_ptr() as usize;
             shadow::tracked(|| drop(a));
             if shadow::active() {
-                ensure!(shadow::live_layout(heap).is_none(), "C15", "uninit", "{}: block not returned", what);
+                ensure!(
+                    shadow::live_layout(heap).is_none(),
+                    "C15",
+                    "uninit",
+                    "{}: block not returned",
+                    what
+                );
             }
         }
         1 => {
-            let mut u: UniqueArc<[MaybeUninit<E>]> = shadow::tracked(|| UniqueArc::new_uninit_slice(len));
+            let mut u: UniqueArc<[MaybeUninit<E>]> =
+                shadow::tracked(|| UniqueArc::new_uninit_slice(len));
             shadow::tracked(|| wr(&mut u[..], mask, &mut written));
             shadow::tracked(|| drop(u));
         }
         2 => {
             let h = shadow::tracked(|| H::make(140));
             header_id = h.id();
-            let mut u: UniqueArc<HeaderSlice<H, [MaybeUninit<E>]>> = shadow::tracked(|| UniqueArc::from_header_and_uninit_slice(h, len));
-            ensure!(u.slice.len() == len && (!H::HAS_ID || u.header.id() == header_id), "C15,C06", "uninit", "{}: wrong length or header", what);
+            let mut u: UniqueArc<HeaderSlice<H, [MaybeUninit<E>]>> =
+                shadow::tracked(|| UniqueArc::from_header_and_uninit_slice(h, len));
+            ensure!(
+                u.slice.len() == len && (!H::HAS_ID || u.header.id() == header_id),
+                "C15,C06",
+                "uninit",
+                "{}: wrong length or header",
+                what
+            );
             shadow::tracked(|| wr(&mut u.slice, mask, &mut written));
             shadow::tracked(|| drop(u));
             if H::HAS_ID {
-                ensure!(tk::state(header_id) == tk::DEAD, "C15", "uninit", "{}: the header was not destroyed when the uninitialised handle was dropped", what);
+                ensure!(
+                    tk::state(header_id) == tk::DEAD,
+                    "C15",
+                    "uninit",
+                    "{}: the header was not destroyed when the uninitialised handle was dropped",
+                    what
+                );
             }
         }
         // ---- every slot written, then assume_init
@@ -113,7 +186,14 @@ pub fn slice_case<H: Pay, E: Pay>(len: usize, mask: u64, path: usize, st: &mut U
             let b: Arc<[E]> = unsafe { a.assume_init() };
             check_init(&what, &b, &written, heap, addr, len)?;
             let c = shadow::tracked(|| b.clone());
-            ensure!(Arc::count(&b) == 2, "C15,C04", "uninit", "{}: count after clone {}", what, Arc::count(&b));
+            ensure!(
+                Arc::count(&b) == 2,
+                "C15,C04",
+                "uninit",
+                "{}: count after clone {}",
+                what,
+                Arc::count(&b)
+            );
             shadow::tracked(|| {
                 drop(b);
                 drop(c)
@@ -121,7 +201,8 @@ pub fn slice_case<H: Pay, E: Pay>(len: usize, mask: u64, path: usize, st: &mut U
             written.clear();
         }
         4 => {
-            let mut u: UniqueArc<[MaybeUninit<E>]> = shadow::tracked(|| UniqueArc::new_uninit_slice(len));
+            let mut u: UniqueArc<[MaybeUninit<E>]> =
+                shadow::tracked(|| UniqueArc::new_uninit_slice(len));
             shadow::tracked(|| wr(&mut u[..], all, &mut written));
             let addr = (*u).as_ptr() as usize;
             let b: Arc<[E]> = unsafe { UniqueArc::assume_init_slice(u) }.shareable();
@@ -133,22 +214,40 @@ pub fn slice_case<H: Pay, E: Pay>(len: usize, mask: u64, path: usize, st: &mut U
         5 => {
             let h = shadow::tracked(|| H::make(140));
             header_id = h.id();
-            let mut u: UniqueArc<HeaderSlice<H, [MaybeUninit<E>]>> = shadow::tracked(|| UniqueArc::from_header_and_uninit_slice(h, len));
+            let mut u: UniqueArc<HeaderSlice<H, [MaybeUninit<E>]>> =
+                shadow::tracked(|| UniqueArc::from_header_and_uninit_slice(h, len));
             shadow::tracked(|| wr(&mut u.slice, all, &mut written));
             let addr = u.slice.as_ptr() as usize;
             let haddr = &u.header as *const H as usize;
-            let b: Arc<HeaderSlice<H, [E]>> = unsafe { u.assume_init_slice_with_header() }.shareable();
+            let b: Arc<HeaderSlice<H, [E]>> =
+                unsafe { u.assume_init_slice_with_header() }.shareable();
             ensure!(
-                b.slice.as_ptr() as usize == addr && &b.header as *const H as usize == haddr && b.slice.len() == len && Arc::count(&b) == 1,
+                b.slice.as_ptr() as usize == addr
+                    && &b.header as *const H as usize == haddr
+                    && b.slice.len() == len
+                    && Arc::count(&b) == 1,
                 "C15",
                 "uninit",
                 "{}: assume_init_slice_with_header changed allocation, length or count",
                 what
             );
             for (k, e) in b.slice.iter().enumerate() {
-                ensure!(e.check().is_ok() && (!E::HAS_ID || e.id() == written[k]), "C15", "uninit", "{}: element {} differs after assume_init", what, k);
+                ensure!(
+                    e.check().is_ok() && (!E::HAS_ID || e.id() == written[k]),
+                    "C15",
+                    "uninit",
+                    "{}: element {} differs after assume_init",
+                    what,
+                    k
+                );
             }
-            ensure!(b.header.check().is_ok() && (!H::HAS_ID || b.header.id() == header_id), "C15", "uninit", "{}: header differs after assume_init", what);
+            ensure!(
+                b.header.check().is_ok() && (!H::HAS_ID || b.header.id() == header_id),
+                "C15",
+                "uninit",
+                "{}: header differs after assume_init",
+                what
+            );
             shadow::tracked(|| drop(b));
             written.clear();
         }
@@ -168,12 +267,31 @@ pub fn slice_case<H: Pay, E: Pay>(len: usize, mask: u64, path: usize, st: &mut U
                     }
                 })
             });
-            ensure!(r.is_err(), "C15,C03", "uninit", "{}: deprecated as_mut_slice gave mutable access to a shared allocation", what);
-            ensure!(bytes_of(&co) == before && Arc::count(&co) == 2, "C15,C03", "uninit", "{}: the other handle's view changed after a refused write", what);
+            ensure!(
+                r.is_err(),
+                "C15,C03",
+                "uninit",
+                "{}: deprecated as_mut_slice gave mutable access to a shared allocation",
+                what
+            );
+            ensure!(
+                bytes_of(&co) == before && Arc::count(&co) == 2,
+                "C15,C03",
+                "uninit",
+                "{}: the other handle's view changed after a refused write",
+                what
+            );
             shadow::tracked(|| drop(co));
             #[allow(deprecated)]
             let r2 = shadow::tracked(|| catch(|| a.as_mut_slice().len()));
-            ensure!(r2 == Ok(len), "C15,C03", "uninit", "{}: deprecated as_mut_slice refused a sole owner: {:?}", what, r2);
+            ensure!(
+                r2 == Ok(len),
+                "C15,C03",
+                "uninit",
+                "{}: deprecated as_mut_slice refused a sole owner: {:?}",
+                what,
+                r2
+            );
             let b: Arc<[E]> = unsafe { a.assume_init() };
             shadow::tracked(|| drop(b));
             written.clear();
@@ -181,11 +299,30 @@ pub fn slice_case<H: Pay, E: Pay>(len: usize, mask: u64, path: usize, st: &mut U
     }
     let leaked = if has_heap { written.len() } else { 0 };
     end(&what, id0, &written, leaked)?;
-    ensure!(tk::z_live() == z0 || !written.is_empty() || std::mem::size_of::<E>() != 0, "C15", "uninit", "{}: zero-sized values not destroyed exactly once", what);
+    ensure!(
+        tk::z_live() == z0 || !written.is_empty() || std::mem::size_of::<E>() != 0,
+        "C15",
+        "uninit",
+        "{}: zero-sized values not destroyed exactly once",
+        what
+    );
     st.counts.bump(&format!("uninit.slice.path{}", path));
     st.counts.bump("uninit.cases");
-    let mclass = if mask == 0 { "none" } else if mask & all == all { "all" } else { "some" };
-    st.cases.insert(hash64(&format!("s|{}|{}|{}|{}|{}", H::NAME, E::NAME, len.min(40), mclass, path)));
+    let mclass = if mask == 0 {
+        "none"
+    } else if mask & all == all {
+        "all"
+    } else {
+        "some"
+    };
+    st.cases.insert(hash64(&format!(
+        "s|{}|{}|{}|{}|{}",
+        H::NAME,
+        E::NAME,
+        len.min(40),
+        mclass,
+        path
+    )));
     if st.sample.len() < 6 && len == 3 {
         st.sample.push(what);
     }
@@ -194,12 +331,25 @@ pub fn slice_case<H: Pay, E: Pay>(len: usize, mask: u64, path: usize, st: &mut U
 
 fn bytes_of<E: Pay>(a: &Arc<[MaybeUninit<E>]>) -> Vec<(u32, u64)> {
     // every slot was written: read identity and value of each element through this handle
-    a.iter().map(|m| unsafe { m.assume_init_ref() }).map(|e| (e.id(), e.tag())).collect()
+    a.iter()
+        .map(|m| unsafe { m.assume_init_ref() })
+        .map(|e| (e.id(), e.tag()))
+        .collect()
 }
 
-fn check_init<E: Pay>(what: &str, b: &Arc<[E]>, written: &[u32], heap: usize, addr: usize, len: usize) -> R {
+fn check_init<E: Pay>(
+    what: &str,
+    b: &Arc<[E]>,
+    written: &[u32],
+    heap: usize,
+    addr: usize,
+    len: usize,
+) -> R {
     ensure!(
-        b.heap_ptr() as usize == heap && (**b).as_ptr() as usize == addr && b.len() == len && Arc::count(b) == 1,
+        b.heap_ptr() as usize == heap
+            && (**b).as_ptr() as usize == addr
+            && b.len() == len
+            && Arc::count(b) == 1,
         "C15",
         "uninit",
         "{}: assume_init changed allocation, address, length or count",
@@ -207,9 +357,20 @@ fn check_init<E: Pay>(what: &str, b: &Arc<[E]>, written: &[u32], heap: usize, ad
     );
     for (k, e) in b.iter().enumerate() {
         if let Err(m) = e.check() {
-            return viol("C15", "uninit", format!("{}: element {} after assume_init: {}", what, k, m));
+            return viol(
+                "C15",
+                "uninit",
+                format!("{}: element {} after assume_init: {}", what, k, m),
+            );
         }
-        ensure!(!E::HAS_ID || e.id() == written[k], "C15", "uninit", "{}: element {} is not the value written", what, k);
+        ensure!(
+            !E::HAS_ID || e.id() == written[k],
+            "C15",
+            "uninit",
+            "{}: element {} is not the value written",
+            what,
+            k
+        );
     }
     Ok(())
 }
@@ -224,7 +385,14 @@ pub fn sized_case<P: Pay>(path: usize, st: &mut UStats) -> R {
     match path {
         0 => {
             let a: Arc<MaybeUninit<P>> = shadow::tracked(|| Arc::new_uninit());
-            ensure!(Arc::count(&a) == 1, "C15", "uninit", "{}: count {}", what, Arc::count(&a));
+            ensure!(
+                Arc::count(&a) == 1,
+                "C15",
+                "uninit",
+                "{}: count {}",
+                what,
+                Arc::count(&a)
+            );
             shadow::tracked(|| drop(a));
         }
         1 => {
@@ -253,8 +421,22 @@ pub fn sized_case<P: Pay>(path: usize, st: &mut UStats) -> R {
             let heap = a.heap_ptr() as usize;
             let addr = Arc::as_ptr(&a) as usize;
             let b: Arc<P> = unsafe { a.assume_init() };
-            ensure!(b.heap_ptr() as usize == heap && Arc::as_ptr(&b) as usize == addr && Arc::count(&b) == 1, "C15", "uninit", "{}: assume_init changed allocation or count", what);
-            ensure!(b.check().is_ok() && b.id() == id, "C15", "uninit", "{}: assume_init changed the contents", what);
+            ensure!(
+                b.heap_ptr() as usize == heap
+                    && Arc::as_ptr(&b) as usize == addr
+                    && Arc::count(&b) == 1,
+                "C15",
+                "uninit",
+                "{}: assume_init changed allocation or count",
+                what
+            );
+            ensure!(
+                b.check().is_ok() && b.id() == id,
+                "C15",
+                "uninit",
+                "{}: assume_init changed the contents",
+                what
+            );
             shadow::tracked(|| drop(b));
         }
         5 => {
@@ -263,9 +445,22 @@ pub fn sized_case<P: Pay>(path: usize, st: &mut UStats) -> R {
             let id = v.id();
             let r = u.write(v) as *mut P as usize;
             let b: UniqueArc<P> = unsafe { UniqueArc::assume_init(u) };
-            ensure!(&*b as *const P as usize == r && b.check().is_ok() && b.id() == id, "C15", "uninit", "{}: UniqueArc::assume_init changed allocation or contents", what);
+            ensure!(
+                &*b as *const P as usize == r && b.check().is_ok() && b.id() == id,
+                "C15",
+                "uninit",
+                "{}: UniqueArc::assume_init changed allocation or contents",
+                what
+            );
             let b = b.shareable();
-            ensure!(Arc::count(&b) == 1, "C15", "uninit", "{}: count {}", what, Arc::count(&b));
+            ensure!(
+                Arc::count(&b) == 1,
+                "C15",
+                "uninit",
+                "{}: count {}",
+                what,
+                Arc::count(&b)
+            );
             shadow::tracked(|| drop(b));
         }
         6 | 7 | 8 => {
@@ -303,11 +498,29 @@ pub fn sized_case<P: Pay>(path: usize, st: &mut UStats) -> R {
                     a.write(slot.take().unwrap());
                 })
             });
-            ensure!(r.is_err(), "C15,C03", "uninit", "{}: deprecated Arc::write mutated an allocation with 2 owners", what);
-            ensure!(view(&co) == before && before.0 == id && Arc::count(&a) == 2, "C15,C03", "uninit", "{}: the other handle's view or the count changed after a refused write", what);
+            ensure!(
+                r.is_err(),
+                "C15,C03",
+                "uninit",
+                "{}: deprecated Arc::write mutated an allocation with 2 owners",
+                what
+            );
+            ensure!(
+                view(&co) == before && before.0 == id && Arc::count(&a) == 2,
+                "C15,C03",
+                "uninit",
+                "{}: the other handle's view or the count changed after a refused write",
+                what
+            );
             // the refused value was dropped during unwinding (or is still in `slot`)
             drop(slot);
-            ensure!(!P::HAS_ID || tk::state(id2) == tk::DEAD, "C15", "uninit", "{}: the value passed to a refused write was not destroyed exactly once", what);
+            ensure!(
+                !P::HAS_ID || tk::state(id2) == tk::DEAD,
+                "C15",
+                "uninit",
+                "{}: the value passed to a refused write was not destroyed exactly once",
+                what
+            );
             shadow::tracked(|| match co {
                 Co::A(x) => drop(x),
                 Co::O(x) => drop(x),
@@ -323,7 +536,14 @@ pub fn sized_case<P: Pay>(path: usize, st: &mut UStats) -> R {
             let id = v.id();
             #[allow(deprecated)]
             let r = shadow::tracked(|| catch(|| a.write(v).id()));
-            ensure!(r == Ok(id), "C15,C03", "uninit", "{}: deprecated Arc::write refused a sole owner: {:?}", what, r);
+            ensure!(
+                r == Ok(id),
+                "C15,C03",
+                "uninit",
+                "{}: deprecated Arc::write refused a sole owner: {:?}",
+                what,
+                r
+            );
             let b: Arc<P> = unsafe { a.assume_init() };
             ensure!(b.id() == id, "C15", "uninit", "{}: contents differ", what);
             shadow::tracked(|| drop(b));
